@@ -194,6 +194,16 @@ def concurrent_case(args):
             op = ("noop", i)
             o2 = h._run(w, op, mboxx.SESS[i])
             h.ops.append(op); h.obs.append(o2); h.snaps.append((None, h.snapshot(w)))
+        # nothing is left behind that starves later commands: a command that needs the mailbox to itself (CHECK) is
+        # answered at once by every session that has a mailbox selected
+        for i in range(1, nsess + 1):
+            if h.selected.get(i):
+                t1 = w.loop.time()
+                o3 = w.cmd(mboxx.SESS[i], "z CHECK")
+                if w.loop.time() - t1 >= 100 or any(b"timed out" in x for x in o3) or not any(x.startswith(b"z ") for x in o3):
+                    res["starved"] = {"session": i, "reply": [repr(x[:100]) for x in o3], "virtual_seconds": w.loop.time() - t1,
+                                      "commands": [repr(c) for c in cmds], "prefix": [repr(o) for o in prefix]}
+                    break
         post = h.snapshot(w)
         res.update({"prefix": prefix, "cmds": cmds, "tagged": tagged, "moveok": moveok, "data": data, "elapsed": elapsed, "final": post["boxes"],
                     "stream_oracle": mboxx.replay_oracle(h)[:3], "uid_oracle": mboxx.uid_oracle(h)[:3],
@@ -285,6 +295,10 @@ def schedule_level(ctx):
             continue
         if r.get("error"):
             ctx.violation("the implementation raised during a concurrent batch", {"case_seed": r["seed"], "error": r["error"]})
+            continue
+        if r.get("starved"):
+            ctx.violation("after a concurrent batch a command that needs the mailbox to itself is no longer answered "
+                          "(something the batch left behind is taken for a running command)", dict(r["starved"], case_seed=r["seed"]))
             continue
         if r.get("deadlock"):
             ctx.violation("concurrent commands did not all complete (deadlock or starvation)", dict(r["deadlock"], case_seed=r["seed"]))
